@@ -26,7 +26,7 @@ import (
 //	                                    until every call that does not depend on a slow key
 //	                                    has returned; <seed> drives start jitter
 //	C17.sema <cap> <mode> <n> <rounds> <seed>   scripted semaphore use, modes plain, fullpre,
-//	                                    fulllate, freepre, mixed, idlerel, xrel
+//	                                    fulllate, freepre, mixed, idlerel, xrel, lastslot
 //	C17.handoff                         capacity 0: a parked Acquire completed by a Release
 //	C17.hist.once <events>              a history recorded from the real code by Gen,
 //	C17.hist.sema <cap> <events>        validated by the Lean acceptor
@@ -623,6 +623,37 @@ func runC17Sema(c c17SemaCase, rec *c17Recorder) c17SemaObs {
 			fill()
 			close(startW)
 			waitDone()
+		case "lastslot":
+			// n racers, let go together by a spin barrier, go for the LAST free slot with the
+			// cancellable context; the winner keeps the slot.  Once it is taken the context is
+			// cancelled: every loser must come back with the context's error, also the one that
+			// saw the slot free a moment before it was taken.
+			var arrived atomic.Int64
+			var goFlag atomic.Bool
+			for t := 0; t < c.n; t++ {
+				worker(t, false, func() {
+					arrived.Add(1)
+					for i := 0; !goFlag.Load(); i++ {
+						if i%(1<<16) == (1<<16)-1 {
+							runtime.Gosched()
+						}
+					}
+					r.acquire(t, 1)
+				})
+			}
+			for i := 0; i < c.cap-1; i++ {
+				r.acquire(main, 0)
+			}
+			for arrived.Load() < int64(c.n) {
+				runtime.Gosched()
+			}
+			goFlag.Store(true)
+			for r.okN.Load() < int64(c.cap) {
+				runtime.Gosched()
+			}
+			r.doCancel()
+			waitDone()
+			drain()
 		case "idlerel":
 			for i := 0; i < c.rounds; i++ {
 				r.release(main, false)
@@ -701,6 +732,8 @@ func evalC17SemaRun(c c17SemaCase) Result {
 		direct = fail("full-done-must-err", "ok=%d err=%d, want ok=%d err=%d: context cancelled while no slot free", o.ok, o.err, c.cap, c.n)
 	case c.mode == "xrel" && (o.ok != int64(c.cap) || o.err != 0):
 		direct = fail("xrel-counts", "ok=%d err=%d, want ok=%d err=0", o.ok, o.err, c.cap)
+	case c.mode == "lastslot" && (o.ok != int64(c.cap) || o.err != int64(c.n-1)):
+		direct = fail("last-slot", "ok=%d err=%d, want ok=%d err=%d: one racer takes the last slot, the others return the context's error", o.ok, o.err, c.cap, c.n-1)
 	case c.mode == "idlerel" && (o.ok != int64(c.cap) || o.err != 1):
 		direct = fail("idle-release", "after %d Releases of an empty semaphore: ok=%d err=%d, want ok=%d err=1", c.rounds, o.ok, o.err, c.cap)
 	case (c.mode == "freepre" || c.mode == "mixed") && o.ok+o.err != calls:
@@ -712,6 +745,9 @@ func evalC17SemaRun(c c17SemaCase) Result {
 	}
 	if c.mode == "xrel" && c.n >= 2 {
 		class = "sema-xrel"
+	}
+	if c.mode == "lastslot" && c.n >= 2 {
+		class = "sema-lastslot"
 	}
 	return Result{Impl: impl, Direct: direct, Class: class}
 }
@@ -896,7 +932,7 @@ func genC17OnceCase(rng *rand.Rand, big bool) c17OnceCase {
 
 func genC17SemaCase(rng *rand.Rand) c17SemaCase {
 	c := c17SemaCase{seed: rng.Uint64N(1 << 32)}
-	c.mode = pick(rng, "plain", "plain", "fullpre", "fulllate", "freepre", "mixed", "mixed", "idlerel", "xrel", "xrel")
+	c.mode = pick(rng, "plain", "plain", "fullpre", "fulllate", "freepre", "mixed", "mixed", "idlerel", "xrel", "xrel", "lastslot", "lastslot", "lastslot")
 	c.cap = pick(rng, 0, 1, 1, 2, 3, 5, 8)
 	c.n = pick(rng, 1, 2, 3, 4, 8, 16)
 	c.rounds = pick(rng, 1, 2, 3, 5, 10)
@@ -908,6 +944,11 @@ func genC17SemaCase(rng *rand.Rand) c17SemaCase {
 	}
 	if c.mode == "idlerel" {
 		c.n = 0
+	}
+	if c.mode == "lastslot" {
+		c.n = pick(rng, 2, 3, 4, 8, 8)
+		c.cap = pick(rng, 1, 1, 1, 2, 3)
+		c.rounds = 1
 	}
 	if c.mode == "xrel" {
 		c.n = pick(rng, 2, 2, 3, 4, 8)
@@ -938,7 +979,7 @@ func genC17(rng *rand.Rand, tier string) (cases []string) {
 	}
 	for i := 0; i < nHist; i++ {
 		c := genC17SemaCase(rng)
-		if c.mode == "idlerel" || c.mode == "xrel" { // Release without a holder: outside the disciplined acceptor
+		if c.mode == "idlerel" || c.mode == "xrel" || c.mode == "lastslot" { // Release by a non-holder: outside the disciplined acceptor
 			c.mode = "fulllate"
 			c.n, c.rounds = 3, 1
 		}
